@@ -56,6 +56,43 @@ std::vector<uint8_t> writeBmp(const BitmapFile& f)
 	return v;
 }
 
+// looser but common spellings of the same picture: the optional image size field filled in, unused bytes between the colour
+// table and the pixel array. The property does not say that they must be accepted; whatever is accepted must be a valid
+// bitmap of the declared geometry, and a filled image size field alone must not change the outcome
+void looseForms(Ctx& ctx)
+{
+	for (int depth : { 1, 4, 8 }) for (int32_t w : { 1, 5, 8, 32 }) for (int32_t h : { 2, -3, 32, -32 }) for (int palForm : { 0, 2 }) for (uint32_t gap : { 0u, 4u, 8u, 74u }) for (int filled = 0; filled < 2; ++filled) {
+		ref::RBmp b = makeBmp(depth, w, h, palForm, 0, uint32_t(depth * 77 + w * 5 + h));
+		ref::RBmp plain = b;
+		b.gapBeforePixels = gap; b.fillImageSize = filled != 0;
+		if (!gap && !filled) continue;
+		std::string key = "depth " + std::to_string(depth) + " width " + std::to_string(w) + " height " + std::to_string(h) + " paletteForm " + std::to_string(palForm) + " gap " + std::to_string(gap) + (filled ? " image size field filled" : "");
+		ctx.sub(key);
+		auto bad = [&](const std::string& c, const std::string& d) { ctx.violation("C08/loose-form/" + c, key, d); };
+		BitmapFile f, p;
+		auto o = mc::guarded([&] { f = readBmp(ref::encodeBmp(b)); });
+		ctx.transition();
+		if (o.cls == 'X') { bad("non-std-exception", ""); continue; }
+		if (!gap) {
+			auto op = mc::guarded([&] { p = readBmp(ref::encodeBmp(plain)); });
+			if ((op.cls == 'R') != (o.cls == 'R')) { bad("filled-image-size-field-changes-acceptance", o.what + op.what); continue; }
+			if (o.cls == 'R' && (f.pixels != p.pixels || f.palette.size() != p.palette.size() || f.imageHeader.height != p.imageHeader.height)) { bad("filled-image-size-field-changes-the-picture", ""); continue; }
+		}
+		if (o.cls != 'R') { ctx.count("loose-form/refused"); continue; }
+		ctx.count("loose-form/accepted");
+		auto v = mc::guarded([&] { f.Validate(); });
+		if (v.cls != 'R') { bad("accepted-result-fails-validation", v.what); continue; }
+		if (f.palette.size() > (std::size_t(1) << depth)) { bad("palette-longer-than-depth-allows", std::to_string(f.palette.size())); continue; }
+		if (f.imageHeader.width != w || f.imageHeader.height != h || f.imageHeader.bitCount != depth) { bad("geometry", ""); continue; }
+		if (f.pixels.size() != ref::RBmp::pitchOf(depth, w) * b.absHeight()) { bad("pixel-container-size", std::to_string(f.pixels.size())); continue; }
+		std::vector<uint8_t> w1; BitmapFile g;
+		auto ow = mc::guarded([&] { w1 = writeBmp(f); g = readBmp(w1); });
+		if (ow.cls != 'R') { bad("accepted-result-cannot-be-written-and-read-back", ow.what); continue; }
+		if (g.pixels.size() != f.pixels.size() || g.imageHeader.height != h) { bad("reread-differs", ""); continue; }
+	}
+	ctx.state(); ctx.trace();
+}
+
 std::string keyOf(int depth, int32_t w, int32_t h, int palForm, uint32_t imp) { return "depth " + std::to_string(depth) + " width " + std::to_string(w) + " height " + std::to_string(h) + " paletteForm " + std::to_string(palForm) + " important " + std::to_string(imp); }
 
 void accepted(Ctx& ctx, int depth, int32_t w, int32_t h, int palForm, uint32_t imp)
@@ -175,11 +212,13 @@ void build(Ctx& ctx)
 	gCases.push_back({ 2, 0, 0, 0 });
 	gCases.push_back({ 3, 0, 0, 0 });
 	for (int d : { 1, 4, 8 }) gCases.push_back({ 4, d, 0, 0 });
+	gCases.push_back({ 5, 0, 0, 0 });
 }
 
 void runCase(std::size_t i, Ctx& ctx)
 {
 	const CaseDef& c = gCases[i];
+	if (c.kind == 5) { looseForms(ctx); return; }
 	if (c.kind == 0) {
 		for (int32_t wi = c.w0; wi < c.w1; ++wi) for (int32_t h : gHeights) for (int pal = 0; pal < 4; ++pal) for (uint32_t imp = 0; imp < 2; ++imp) accepted(ctx, c.depth, gWidths[wi], h, pal, imp);
 		if (c.depth == 4 && c.w0 == 6) ctx.sample("accepted BMP " + keyOf(4, gWidths[c.w0], -2, 1, 0) + ": read, validate, geometry, write == well-formed with zero padding, re-read, flip, double flip");
